@@ -166,7 +166,7 @@ def parse_events(o):
             i += 2 + 2 * n
         else:
             ev = o[i]
-            if ev[0] in (1, 2, 3):
+            if ev[0] in (1, 2, 3, 11):
                 inv[-1]["ops"].append((ev, o[i + 1]))
                 i += 2
             else:
@@ -202,6 +202,8 @@ def handler_ops(script):
             break
         elif c == 10:
             ops.append(("read?", script[i + 1])); i += 2
+        elif c == 11:
+            ops.append(("poll1", script[i + 1])); i += 2
         else:
             break
     return ops
